@@ -330,6 +330,8 @@ class C09(Check):
 
     def must_stay_silent(self):
         return [
+            Variant("row-worker-staged", SCAN, "steady_state", "res = parallelise(partial(_update_parameters_and_initial_conditions, fn=partial(worker, rel_norm=rel_norm, integrator=integrator, y0=None), model=model),",
+                    "row_fn = partial(worker, rel_norm=rel_norm, integrator=integrator, y0=None)\n    res = parallelise(partial(_update_parameters_and_initial_conditions, fn=row_fn, model=model),", quick=True),
             Variant("deepcopy-import-form", SCAN, "_update_parameters_and_initial_conditions", "model = copy.deepcopy(model)", "model = deepcopy(model)", quick=True),
         ]
 
